@@ -159,6 +159,8 @@ Section Num.
   (* _compute up to HDR and fm, from the grid *)
   Definition hdc_region (cond : list (option nat)) (coords : list (list T)) (deltas : list T) (alpha : T)
     : hdr_result T * T :=
+    (* cell_averaged_pdf reads coords[d][1]: an axis with fewer than two cells raises IndexError *)
+    if existsb (fun c => length c <? 2) coords then (HdrIndexError, zero) else
     let f := cell_averaged_joint_pdf cond coords in
     if existsb isnan (a_data f) then (HdrNan, zero) else
     let r := hdr_select (scale_cells (a_data f) deltas) (sub one alpha) in
